@@ -6,7 +6,8 @@
                [--max-len 4096] [--empty-corpus] [--timeout-unit 60]
 
 Runs  BUILD/fuzz/bin/<target> -runs=N -seed=<derived> -max_len=.. on a fresh copy
-of VERIF/corpus/<target> (or an empty directory).  Only crash-/leak- artefacts are
+of VERIF/corpus/<target> (or an empty directory); artefacts are written to the
+shard's own work directory and copied to FOUND when they are violations.  Only crash-/leak- artefacts are
 violations (sanitizer report, uncaught exception, oracle trap inside the target);
 timeout-/oom-/slow-unit- artefacts are counted as inconclusive.  Writes the part
 JSON the runner merges (evaluations = executed runs, classes/samples/hashes from
@@ -57,7 +58,9 @@ def main():
         shutil.copytree(src, corpus)
     nseed = len(os.listdir(corpus))
     os.makedirs(a.found, exist_ok=True)
-    prefix = os.path.join(a.found, "%s-%s-" % (a.prop, a.target))
+    # artefacts go to this shard's private directory first (other runs may share
+    # the found directory); violations are copied to the found directory below
+    prefix = os.path.join(wd, "%s-%s-" % (a.prop, a.target))
     stats = os.path.join(wd, "stats.json")
     h = int(hashlib.sha256(a.target.encode()).hexdigest()[:12], 16)
     fseed = splitmix(a.seed * 1000003 + a.shard * 7919 + h) % 0xFFFFFFFF or 1
@@ -70,8 +73,11 @@ def main():
     cmd.append(corpus)
     env = dict(os.environ, VERIF_FUZZ_STATS=stats)
     before = set(glob.glob(prefix + "*"))
-    p = subprocess.run(cmd, env=env, stdout=subprocess.PIPE, stderr=subprocess.STDOUT, cwd=wd)
-    out = p.stdout.decode("utf-8", "replace")
+    p = subprocess.Popen(cmd, env=env, stdout=subprocess.PIPE, stderr=subprocess.STDOUT, cwd=wd)
+    raw_out, _ = p.communicate()
+    out = raw_out.decode("utf-8", "replace")
+    # scratch directories a target creates under /tmp (removed by atexit unless it crashed)
+    shutil.rmtree("/tmp/verif-c18-%d" % p.pid, ignore_errors=True)
     sys.stdout.write(out[-6000:])
     new = sorted(set(glob.glob(prefix + "*")) - before)
     written = re.findall(r"Test unit written to (\S+)", out)
@@ -117,6 +123,9 @@ def main():
                 if q.returncode != 0:
                     raw = mini
         data = open(raw, "rb").read()
+        keep = os.path.join(a.found, os.path.basename(art) + (".min" if raw != art else ""))
+        shutil.copyfile(raw, keep)
+        raw = keep
         msg = ""
         mm = re.findall(r"ORACLE-FAIL: (.*)", out)
         if mm:
